@@ -563,4 +563,14 @@ def standard_check(prop, tier, seed, fam):
         cov["distinct_nontrivial"] = st["distinct_label_sequences"]
     base_assume = ["TLC 1.8.0; CommunityModules Json/IOUtils", "testing/synctest durable-blocking detection (go1.26.8)",
                    "harness built with go1.26.8, not the go1.23 toolchain of the pinned suite"]
-    return finish(prop, tier, seed, fam.get("level", "model_checking"), cov, mine, t0, base_assume + fam.get("assumptions", []), replay_builder=replay)
+    rc = finish(prop, tier, seed, fam.get("level", "model_checking"), cov, mine, t0, base_assume + fam.get("assumptions", []), replay_builder=replay)
+    # Disk: a thorough run records gigabytes of traces. Once validated they are not needed any more (a
+    # violation's events are copied into its replay file); VERIF_KEEP=1 keeps them for inspection.
+    if tier != "quick" and not os.environ.get("VERIF_KEEP"):
+        import glob
+        for f in glob.glob(os.path.join(wd, "*.ndjson")):
+            try:
+                os.remove(f)
+            except OSError:
+                pass
+    return rc
